@@ -444,12 +444,13 @@ def rule_tables(c: Ctx) -> RuleResult:
               f"differs from ASCII punctuation: missing {miss} extra {extra} - a backslash before such a character is literal in one "
               f"context and an escape in another")
     # producers
-    sites = [ts for ts in token_sites(c) if ts.func.short in ("escape", "entity") and ts.via.startswith("push")]
+    sites = [ts for ts in token_sites(c) if ts.via.startswith("push")]
     for f_short in ("escape", "entity"):
         f = next((x for x in c.p.all_funcs() if x.short == f_short and x.module.rel.startswith("rules_inline/")), None)
         if f is None:
             raise AnchorError(f"inline rule {f_short} not found")
-        mine = [ts for ts in sites if ts.func is f and ts.kinds and ts.kinds != ["hardbreak"]]
+        own = {g for g in _reach_nd(c, f) if g.module is f.module}          # the rule and the private helpers it pushes through
+        mine = [ts for ts in sites if ts.func in own and ts.kinds and ts.kinds != ["hardbreak"]]
         ok = bool(mine) and all(ts.kinds == ["text_special"] for ts in mine)
         r.add(f"producer|{f_short}|kind", c.where(f, f.node), f.short, "push(kind, '', 0)", "discharged" if ok else "violation",
               "emits the placeholder kind text_special (not text, which the typographer would rewrite)" if ok else
@@ -468,7 +469,9 @@ def rule_tables(c: Ctx) -> RuleResult:
               U(pend[0][1])[:70] if pend else "state.pending", "violation" if pend else "discharged",
               f"{f_short} writes state.pending: a character written as an escape / entity becomes ordinary text and is open to the "
               f"typographic replacements" if pend else "nothing reachable from the rule writes state.pending")
-        cont = [s for s in own_nodes(f.node) if isinstance(s, ast.Assign) and any(isinstance(t, ast.Attribute) and t.attr == "content" for t in s.targets)]
+        cont = [s for g in sorted(own, key=lambda x: x.qual) for s in own_nodes(g.node)
+                if isinstance(s, ast.Assign) and any(isinstance(t, ast.Attribute) and t.attr == "content" for t in s.targets)]
+        cont += [k.value for ts in mine for k in getattr(ts.node, "keywords", []) if k.arg == "content"] if not cont else []
         okc = bool(cont)
         r.add(f"producer|{f_short}|content", c.where(f, cont[0] if cont else f.node), f.short, U(cont[0])[:80] if cont else "-",
               "discharged" if okc else "violation",
